@@ -22,7 +22,7 @@ func c11(tier string) int {
 	p.ContextScript = filepath.Join(jsx.VerifRoot(), "js", "probe11.js")
 	env.CheckAll([]diffrun.Program{p}, []diffrun.Variant{diffrun.Plain, diffrun.Minified})
 	return finishDiff(env, "C11", tier, start,
-		"the documented conversion table (js package documentation) x boundary values x routes: booleans; every integer kind at 0, 1, -1, min, max; int64/uint64 up to 2^53; floats incl. signed zeros, infinities, NaN, smallest subnormal, largest finite; strings at every UTF-8 / UTF-16 encoding boundary incl. NUL, non-BMP and quotes; slices, subslices and arrays of every numeric element kind (typed arrays sharing storage), other slices, nested slices, string-keyed maps, structs with exported and unexported fields, nil of every nillable kind, interface values; each through the routes Call / Invoke / New / Set / SetIndex / result of an exposed function / argument and result of an exposed function, plus the round trip back to Go; JavaScript -> Go through Interface() for every JavaScript kind and the typed accessors; identity of *js.Object and of externalised functions; exposed functions with typed, variadic, any-typed, slice/map/object parameters, no result, MakeFunc with this; a struct wrapping a JavaScript object with js-tagged fields read and written; blocking Go code called from a JavaScript callback (documented error, scheduler still usable)",
+		"the documented conversion table (js package documentation) x boundary values x routes: booleans; every integer kind at 0, 1, -1, min, max; int64/uint64 up to 2^53; floats incl. signed zeros, infinities, NaN, smallest subnormal, largest finite; strings at every UTF-8 / UTF-16 encoding boundary incl. NUL, non-BMP and quotes; slices, subslices and arrays of every numeric element kind (typed arrays sharing storage), other slices, nested slices, string-keyed maps, structs with exported and unexported fields, nil of every nillable kind, interface values; each through the routes Call / Invoke / New / Set / SetIndex / result of an exposed function / argument and result of an exposed function, plus the round trip back to Go; JavaScript -> Go through Interface() for every JavaScript kind and the typed accessors; identity of *js.Object and of externalised functions; exposed functions with typed, variadic, any-typed, slice/map/object parameters, no result, MakeFunc with this; a struct wrapping a JavaScript object with js-tagged fields read and written; blocking Go code called from a JavaScript callback (documented error, scheduler still usable); object graphs: 7 shapes with shared nodes and cycles through Interface(), and one JavaScript object reached under two different Go target types (8 typed targets x distinct / shared / shared-reversed); the receiver expression of every js.Object method form (19 forms incl. spread, dynamic names, deferred calls) in 5 side-effecting receiver shapes is evaluated exactly once; MakeWrapper / MakeFullWrapper objects of 9 kinds of defined types handed back to typed and interface{} parameters are the wrapped value again",
 		[]string{"no reference implementation exists: the expected lines are literals transcribed from the js package documentation (trusted, kept small)", "time.Time <-> Date is not checked (package time cannot be built against this GOROOT)"},
 		nil)
 }
